@@ -106,12 +106,12 @@ theorem removeOverlap_sound : ∀ (fuel : Nat) (a b : Range) (rs : List Range) (
                     cases (b[i]?.getD default).mem (v[i]?.getD none) <;> rfl
                 · intro r hr
                   rcases List.mem_append.mp hr with hr | hr
+                  · obtain ⟨p, hp, e⟩ := List.mem_map.mp hr
+                    rw [← e]; exact Range.nonInv_set ha (ColRange.subtract_nonInv hai hs1 p hp)
                   · rcases List.mem_append.mp hr with hr | hr
                     · obtain ⟨p, hp, e⟩ := List.mem_map.mp hr
-                      rw [← e]; exact Range.nonInv_set ha (ColRange.subtract_nonInv hai hs1 p hp)
-                    · obtain ⟨p, hp, e⟩ := List.mem_map.mp hr
                       rw [← e]; exact Range.nonInv_set hb (ColRange.subtract_nonInv hbi hs2 p hp)
-                  · exact ih2 r hr
+                    · exact ih2 r hr
       · simp at hov
         simp [hov] at h
         obtain ⟨e1, _⟩ := h
@@ -187,28 +187,25 @@ theorem firstOverlap_hit : ∀ (rang : Range) (conns : List Range) (c : Range) (
 
 /-! ### `GetRangeCollection` and `validateRangeCollection` -/
 
+theorem any_isEmpty_sound : ∀ (r : Range) (v : Tuple), r.any ColRange.isEmpty = true → Range.mem r v = false
+  | [], _, h => by simp at h
+  | _ :: _, [], _ => rfl
+  | c :: cs, x :: xs, h => by
+    simp only [Range.mem]
+    simp only [List.any_cons, Bool.or_eq_true] at h
+    rcases h with h | h
+    · rw [(ColRange.isEmpty_iff c).mp h x]; rfl
+    · rw [any_isEmpty_sound cs xs h]; simp
+
 theorem isEmpty_sound {r : Range} (h : r.isEmpty = true) (v : Tuple) (hv : v ≠ []) : Range.mem r v = false := by
   unfold Range.isEmpty at h
-  induction r generalizing v with
+  cases r with
   | nil => cases v with
     | nil => exact absurd rfl hv
     | cons _ _ => rfl
-  | cons c cs ih =>
-    cases v with
-    | nil => rfl
-    | cons x xs =>
-      simp only [Range.mem]
-      simp at h
-      rcases h with h | h
-      · rw [(ColRange.isEmpty_iff c).mp h x]; rfl
-      · cases xs with
-        | nil =>
-          cases cs with
-          | nil => simp at h
-          | cons _ _ => simp [Range.mem]
-        | cons y ys =>
-          have := ih (y :: ys) (by simp) (by simp; right; exact h)
-          rw [this]; simp
+  | cons c cs =>
+    simp only [List.isEmpty_cons, Bool.false_or] at h
+    exact any_isEmpty_sound _ v h
 
 theorem collectStep_sound (coll : List Range) (e : Range) (rang : Range) (coll' : List Range) (e' : Range)
     (hc : Range.NonInv rang) (hn : ∀ r ∈ coll, Range.NonInv r)
@@ -233,9 +230,9 @@ theorem collectStep_sound (coll : List Range) (e : Range) (rang : Range) (coll' 
       exact ⟨fun v _ => by simp [memAny], fun r hr => by simp at hr; subst hr; exact hc⟩
     | some last =>
       simp only [hl] at h
-      have hsplit : coll = coll.dropLast ++ [last] := by
-        have := List.dropLast_append_getLast? last hl
-        exact this.symm
+      obtain ⟨ys, hys⟩ := List.getLast?_eq_some_iff.mp hl
+      have hdl : coll.dropLast = ys := by rw [hys]; simp
+      have hsplit : coll = coll.dropLast ++ [last] := by rw [hdl]; exact hys
       have hlast : Range.NonInv last := hn last (by rw [hsplit]; simp)
       cases hm : last.tryMerge rang with
       | err => simp [hm] at h
@@ -260,7 +257,7 @@ theorem collectStep_sound (coll : List Range) (e : Range) (rang : Range) (coll' 
         · intro r hr
           simp at hr
           rcases hr with hr | hr
-          · exact hn r (List.mem_of_mem_dropLast hr)
+          · exact hn r (List.dropLast_subset coll hr)
           · subst hr; exact Range.tryMerge_nonInv hlast hc hm
 
 theorem collect_fold_sound : ∀ (stored : List Range) (coll : List Range) (e : Range) (coll' : List Range) (e' : Range),
@@ -291,6 +288,47 @@ theorem collect_fold_sound : ∀ (stored : List Range) (coll : List Range) (e : 
       rw [ih v hv, s1 v hv, memAny_cons]
       cases memAny coll v <;> cases Range.mem rang v <;> cases memAny rest v <;> rfl
 
+/-- The `emptyRange` slot of `GetRangeCollection` only ever holds ranges without members. -/
+theorem collect_fold_empty : ∀ (stored : List Range) (coll : List Range) (e : Range) (coll' : List Range) (e' : Range),
+    (∀ v : Tuple, v ≠ [] → Range.mem e v = false) →
+    stored.foldl collectStep (some (coll, e)) = some (coll', e') →
+    ∀ v : Tuple, v ≠ [] → Range.mem e' v = false
+  | [], coll, e, coll', e', he, h => by
+    simp at h
+    obtain ⟨_, e2⟩ := h
+    subst e2; exact he
+  | rang :: rest, coll, e, coll', e', he, h => by
+    simp only [List.foldl_cons] at h
+    cases hstep : collectStep (some (coll, e)) rang with
+    | none =>
+      rw [hstep] at h
+      have : ∀ (l : List Range), l.foldl collectStep none = none := by
+        intro l; induction l with
+        | nil => rfl
+        | cons x xs ih => simpa [collectStep] using ih
+      rw [this] at h; simp at h
+    | some p =>
+      obtain ⟨c1, e1⟩ := p
+      rw [hstep] at h
+      refine collect_fold_empty rest c1 e1 coll' e' ?_ h
+      unfold collectStep at hstep
+      simp only at hstep
+      by_cases hem : rang.isEmpty = true
+      · simp [hem] at hstep
+        obtain ⟨_, e2⟩ := hstep
+        subst e2
+        exact fun v hv => isEmpty_sound hem v hv
+      · simp at hem
+        simp only [hem, Bool.not_false, if_true] at hstep
+        cases hl : coll.getLast? with
+        | none => simp [hl] at hstep; obtain ⟨_, e2⟩ := hstep; subst e2; exact he
+        | some last =>
+          simp only [hl] at hstep
+          cases hm : last.tryMerge rang with
+          | err => simp [hm] at hstep
+          | no => simp [hm] at hstep; obtain ⟨_, e2⟩ := hstep; subst e2; exact he
+          | yes m => simp [hm] at hstep; obtain ⟨_, e2⟩ := hstep; subst e2; exact he
+
 /-- `GetRangeCollection` keeps the members (on key tuples with at least one column). -/
 theorem getRangeCollection_sound (stored coll : List Range) (hs : ∀ r ∈ stored, Range.NonInv r)
     (h : getRangeCollection stored = some coll) (v : Tuple) (hv : v ≠ []) :
@@ -308,11 +346,9 @@ theorem getRangeCollection_sound (stored coll : List Range) (hs : ∀ r ∈ stor
       have : c1 = [] := by simpa using hc
       subst this
       -- every stored range was empty: the result is one of them (or the zero value)
-      rw [memAny_nil, memAny_nil, Bool.false_or] at key
-      rw [← key]
-      -- e1 is an empty range or []
-      have he1 : ∀ (l : List Range) (c : List Range) (e c' e' : Range × Unit → Unit), True := fun _ _ _ _ _ => trivial
-      sorry
+      have hk : memAny stored v = false := by simpa [memAny] using key.symm
+      rw [hk, memAny_cons, memAny_nil, Bool.or_false]
+      exact collect_fold_empty stored [] [] [] e1 (by intro _; cases v <;> simp_all [Range.mem]) hf v hv
     · simp [hc] at h
       subst h
       simpa [memAny] using key
